@@ -24,7 +24,9 @@
 
 /* value of an IntT as a non-negative number of the wider type WT (only used on non-negative values); products of two
  * IntT values do not wrap in WT for W <= 32 */
-#if W <= 16
+#ifdef WT_OVERRIDE
+#define WT WT_OVERRIDE
+#elif W <= 16
 #define WT uint32_t
 #else
 #define WT uint64_t
